@@ -24,6 +24,7 @@
 #include "options_for_QT.h"
 #include "punctuators.h"
 #include "token_is_within_trailing_return.h"
+#include "verif_hooks.h"
 
 #ifdef WIN32
 #include <algorithm>                   // to get max
@@ -3523,6 +3524,8 @@ void space_text()
    size_t prev_column;
    size_t column = pc->GetColumn();
 
+   VERIF_HOOK(verif_space_begin());
+
    while (pc->IsNotNullChunk())
    {
       if (pc->Is(CT_NEWLINE))
@@ -3812,6 +3815,7 @@ void space_text()
             }
          }
          next->SetColumn(column);
+         VERIF_HOOK(verif_space(pc, next, static_cast<int>(av), min_sp, prev_column, column));
          LOG_FMT(LSPACE, "%s(%d): orig line is %zu, orig col is %zu, pc-Text() '%s', type is %s\n",
                  __func__, __LINE__, pc->GetOrigLine(), pc->GetOrigCol(), pc->Text(), get_token_name(pc->GetType()));
          LOG_FMT(LSPACE, "%s(%d): ",
